@@ -608,14 +608,14 @@ def lock_discipline(expected_methods):
 
 
 # ------------------------------------------------------------------ merge_caches_deterministic
-# Model: the two order-key callables are arbitrary *pure* functions (uninterpreted `wkey`, `kord`, integer valued —
+# Model: the two order-key callables are arbitrary *pure* functions (uninterpreted `wordkey`, `kord`, integer valued —
 # any totally ordered key type behaves the same); a worker cache is its finite content `Dict[K, V]` whose `items()`
 # lists every key once in an unspecified order (that is all the merge may rely on); the target is a faithful,
 # non-evicting map (ghost `tmap`) reached only through `in` / `get` / `put`.  Ghost logs: `visited` (worker entries in
 # visit order, recorded right after `kvs = list(wc.items())`), `marks` (number of membership queries made before
 # each worker), `queries` ((visit index, key) of every `k in target` test, in call order).
 R.untype("W")
-R.uf("wkey", ["Un[W]"], "int")
+R.uf("wordkey", ["Un[W]"], "int")
 R.uf("kord", ["Un[K]"], "int")
 R.funtype("TgtContains", params=["k"], returns="bool", ensures=[("reads-target", "result == (k in tmap)")],
           effects_before=["queries.append((len(visited) - 1, k))"])
@@ -631,7 +631,7 @@ SEG_END = "ite(a + 1 < len(marks), marks[a + 1], len(queries))"
 R.contract(
     CACHE + "merge_caches_deterministic", "C15",
     modifies=[],      # the worker caches are only read (verified frame)
-    types={"target": "MergeTarget", "worker_caches": WCS, "worker_order_key": "=wkey", "key_order_key": "=kord",
+    types={"target": "MergeTarget", "worker_caches": WCS, "worker_order_key": "=wordkey", "key_order_key": "=kord",
            "on_conflict": "str"},
     ghost=MERGE_GHOST,
     raises={"AssertionError": "on_conflict == 'assert_equal'"},
@@ -642,7 +642,7 @@ R.contract(
          "forall(a, 0 <= a < len(visited), exists(i, 0 <= i < len(worker_caches), visited[a] == worker_caches[i])) and "
          "forall(i, 0 <= i < len(worker_caches), exists(a, 0 <= a < len(visited), visited[a] == worker_caches[i]))"),
         ("workers-in-sorted-order-key-order",
-         "forall2(a, b, 0 <= a and a < b and b < len(visited), wkey(visited[a][0]) <= wkey(visited[b][0]))"),
+         "forall2(a, b, 0 <= a and a < b and b < len(visited), wordkey(visited[a][0]) <= wordkey(visited[b][0]))"),
         ("keys-in-sorted-key-order-within-worker",
          "forall2(p, q, 0 <= p and p < q and q < len(queries), queries[p][0] <= queries[q][0] and "
          " implies(queries[p][0] == queries[q][0], kord(queries[p][1]) <= kord(queries[q][1])))"),
@@ -661,7 +661,7 @@ R.contract(
          "forall((k, 'Un[K]'), k in tmap and not old(k in tmap), "
          " exists(i, 0 <= i < len(worker_caches), k in worker_caches[i][1] and tmap[k] == worker_caches[i][1][k] and "
          "   forall(j, 0 <= j < len(worker_caches), implies(k in worker_caches[j][1], "
-         "          wkey(worker_caches[i][0]) <= wkey(worker_caches[j][0])))))"),
+         "          wordkey(worker_caches[i][0]) <= wordkey(worker_caches[j][0])))))"),
         ("nothing-else-added/new-key-takes-first-worker-in-order",
          "forall((k, 'Un[K]'), k in tmap and not old(k in tmap), "
          " exists(a, 0 <= a < len(visited), k in visited[a][1] and tmap[k] == visited[a][1][k] and "
